@@ -8,8 +8,8 @@
 EXTENDS SOOFamily, TraceTree, Json, IOUtils, TLCExt
 
 Traces == JsonDeserialize(IOEnv.TRACE_FILE)
-VARIABLES tid, l, T, f, cur, nexp, ph, asked, err, done
-vars == <<tid, l, T, f, cur, nexp, ph, asked, err, done>>
+VARIABLES tid, l, T, f, hc, hw, cur, nexp, ph, asked, err, soft, done
+vars == <<tid, l, T, f, hc, hw, cur, nexp, ph, asked, err, soft, done>>
 Tr == Traces[tid]
 PP == Tr.P
 Ev == Tr.ev
@@ -24,8 +24,8 @@ FreshCell(x) ==
     [] PP.algo = "DOO"    -> x[2] = 0 /\ x[3] = PP.r0
     [] PP.algo = "StoSOO" -> x[2] = 0 /\ x[3] = 0 /\ x[4] = 0 /\ x[5] = 0
 
-Init == /\ tid \in 1 .. Len(Traces) /\ l = 1 /\ ph = "new" /\ err = "ok" /\ done = FALSE
-        /\ T = [n |-> 0] /\ f = <<>> /\ cur = <<0, NInf>> /\ nexp = 0 /\ asked = {}
+Init == /\ tid \in 1 .. Len(Traces) /\ l = 1 /\ ph = "new" /\ err = "ok" /\ soft = "ok" /\ done = FALSE
+        /\ T = [n |-> 0] /\ f = <<>> /\ hc = <<>> /\ hw = <<>> /\ cur = <<0, NInf>> /\ nexp = 0 /\ asked = {}
 
 CallFail(e) == IF Has(e, "hang") THEN "call.hangs" ELSE IF Has(e, "exc") THEN "call.raises"
                ELSE IF e.k \in {"pull", "glp"} /\ e.ptok # 1 THEN "call.not-a-point"
@@ -39,10 +39,15 @@ BFormulaOK(f0, f1) ==
     [] PP.algo = "DOO" ->
          \* b - reward is one function of the depth (and the user's delta table when there is one)
          LET dl(c) == Bv(f1, c) - V(f1, c) * (PP.S \div PP.RU)
-             ch == ChangedCells(f0, f1) IN
-         /\ \A c \in ch : N(f1, c) = 1
+             chall == ChangedCells(f0, f1)
+             ch == {c \in chall : AbsI(Bv(f1, c)) < 1800000000}      \* codes at the clamp carry no information (huge boxes)
+         IN
+         /\ \A c \in chall : N(f1, c) = 1
          /\ \A c, d \in ch : T.dep[c] = T.dep[d] => dl(c) = dl(d)
          /\ PP.dl # <<>> => \A c \in ch : AbsI(dl(c) - PP.dl[T.dep[c] + 1]) <= 1
+         \* default delta(h): the largest squared half-width (first coordinate) over the cells currently at depth h
+         /\ PP.dl = <<>> => \A c \in ch : LET m == FoldLeft(LAMBDA a, d : MaxI(a, hw[d]), 0, T.layers[T.dep[c] + 1]) IN
+                                          m >= 1800000000 \/ AbsI(dl(c) - m) <= 1
     [] OTHER -> TRUE
 
 MkStep(e) ==
@@ -117,43 +122,54 @@ GlpStep(e) ==
   ELSE IF cs \cap Evaluated(T, f) = {} THEN "rec.never-evaluated"
   ELSE IF cs \cap RecBestEvaluated(T, f) = {} THEN "rec.not-best" ELSE "ok"
 
+Cap == IF PP.algo = "StoSOO" THEN PP.k ELSE 1
+\* how often each cell has been handed out (C08: at most once / at most k times), independent of what was credited
+HandOut(r) == IF r.err = "ok" /\ r.asked # {} THEN [hc EXCEPT ![CHOOSE c \in r.asked : TRUE] = @ + 1] ELSE hc
+TooOften(r) == r.err = "ok" /\ r.asked # {} /\ hc[CHOOSE c \in r.asked : TRUE] >= Cap
+
 Step ==
   /\ ~done /\ err = "ok" /\ l <= Len(Ev)
   /\ LET e == Ev[l] IN
      CASE e.k = "init" ->
             LET c0 == InitCheck(PP, e) IN
             /\ T' = TreeOfInit(e) /\ f' = e.f /\ ph' = "told"
+            /\ hc' = [c \in DOMAIN e.f |-> 0] /\ hw' = [c \in DOMAIN e.cells |-> e.cells[c].hw2]
             /\ err' = IF c0 # "ok" THEN c0
                       ELSE IF ~(Len(e.cells) = 1 /\ FreshCell(<<1>> \o e.f[1])) THEN "sweep.init" ELSE "ok"
             /\ UNCHANGED <<cur, nexp, asked>>
        [] e.k = "mk" ->
             LET r == MkStep(e) IN
             /\ T' = r.T /\ f' = r.f /\ cur' = r.cur /\ nexp' = r.nexp /\ err' = r.err /\ UNCHANGED <<ph, asked>>
+            /\ hc' = (IF r.err = "ok" THEN hc \o [j \in DOMAIN e.new |-> 0] ELSE hc)
+            /\ hw' = (IF r.err = "ok" THEN hw \o [j \in DOMAIN e.new |-> e.new[j].hw2] ELSE hw)
        [] e.k = "pull" ->
             LET c0 == CallFail(e) IN
-            IF ph # "told" THEN err' = "protocol" /\ UNCHANGED <<T, f, cur, nexp, ph, asked>>
-            ELSE IF c0 # "ok" THEN err' = c0 /\ UNCHANGED <<T, f, cur, nexp, ph, asked>>
+            IF ph # "told" THEN err' = "protocol" /\ UNCHANGED <<T, f, hc, hw, cur, nexp, ph, asked>>
+            ELSE IF c0 # "ok" THEN err' = c0 /\ UNCHANGED <<T, f, hc, hw, cur, nexp, ph, asked>>
             ELSE LET r == PullStep(e) IN
-                 /\ f' = r.f /\ asked' = r.asked /\ err' = r.err /\ ph' = "asked" /\ cur' = <<0, NInf>> /\ nexp' = 0 /\ UNCHANGED T
+                 /\ f' = r.f /\ asked' = r.asked /\ ph' = "asked" /\ cur' = <<0, NInf>> /\ nexp' = 0 /\ UNCHANGED <<T, hw>>
+                 /\ err' = (IF TooOften(r) THEN "sweep.evaluated-too-often" ELSE r.err)
+                 /\ hc' = HandOut(r)
        [] e.k = "recv" ->
             LET c0 == CallFail(e) IN
-            IF ph # "asked" THEN err' = "protocol" /\ UNCHANGED <<T, f, cur, nexp, ph, asked>>
-            ELSE IF c0 # "ok" THEN err' = c0 /\ UNCHANGED <<T, f, cur, nexp, ph, asked>>
+            IF ph # "asked" THEN err' = "protocol" /\ UNCHANGED <<T, f, hc, hw, cur, nexp, ph, asked>>
+            ELSE IF c0 # "ok" THEN err' = c0 /\ UNCHANGED <<T, f, hc, hw, cur, nexp, ph, asked>>
             ELSE LET r == RecvStep(e) IN
-                 /\ f' = r.f /\ err' = r.err /\ ph' = "told" /\ UNCHANGED <<T, cur, nexp, asked>>
+                 /\ f' = r.f /\ err' = "ok" /\ soft' = (IF soft = "ok" THEN r.err ELSE soft) /\ ph' = "told" /\ UNCHANGED <<T, hc, hw, cur, nexp, asked>>
        [] e.k = "glp" ->
             LET c0 == CallFail(e) IN
             /\ err' = IF c0 # "ok" THEN c0 ELSE GlpStep(e)
-            /\ UNCHANGED <<T, f, cur, nexp, ph, asked>>
+            /\ UNCHANGED <<T, f, hc, hw, cur, nexp, ph, asked>>
        [] e.k = "end" -> /\ err' = IF ~StructOK(PP, T) THEN "final.struct" ELSE "ok"
-                        /\ UNCHANGED <<T, f, cur, nexp, ph, asked>>
-       [] OTHER -> err' = "unknown-event" /\ UNCHANGED <<T, f, cur, nexp, ph, asked>>
+                        /\ UNCHANGED <<T, f, hc, hw, cur, nexp, ph, asked>>
+       [] OTHER -> err' = "unknown-event" /\ UNCHANGED <<T, f, hc, hw, cur, nexp, ph, asked>>
   /\ l' = l + 1 /\ UNCHANGED <<tid, done>>
+  /\ (Ev[l].k = "recv" /\ ph = "asked" /\ CallFail(Ev[l]) = "ok") \/ UNCHANGED soft
 
 Finish ==
   /\ ~done /\ (err # "ok" \/ l > Len(Ev))
-  /\ PrintT(<<"VERDICT", Tr.id, err, l - 1, IF T.n > 0 THEN T.n ELSE 0>>)
-  /\ done' = TRUE /\ UNCHANGED <<tid, l, T, f, cur, nexp, ph, asked, err>>
+  /\ PrintT(<<"VERDICT", Tr.id, IF err # "ok" THEN err ELSE soft, l - 1, IF T.n > 0 THEN T.n ELSE 0, IF err # "ok" THEN soft ELSE "ok">>)
+  /\ done' = TRUE /\ UNCHANGED <<tid, l, T, f, hc, hw, cur, nexp, ph, asked, err, soft>>
 
 Next == Step \/ Finish
 Spec == Init /\ [][Next]_vars
